@@ -2,6 +2,7 @@ package main
 
 import (
 	"fmt"
+	"os"
 	"go/types"
 	"sort"
 	"strings"
@@ -93,38 +94,47 @@ type tagCase struct {
 }
 
 func (e *Engine) possibleTags(t *Term) []tagCase {
+	memo := map[int]map[int]*Term{}
+	var walk func(t *Term) map[int]*Term
+	walk = func(t *Term) map[int]*Term {
+		if r, ok := memo[t.id]; ok {
+			return r
+		}
+		var r map[int]*Term
+		switch {
+		case t.Op == "ite":
+			a, b := walk(t.Args[1]), walk(t.Args[2])
+			r = map[int]*Term{}
+			for k, c := range a {
+				r[k] = And(t.Args[0], c)
+			}
+			nc := Not(t.Args[0])
+			for k, c := range b {
+				if old, ok := r[k]; ok {
+					r[k] = Or(old, And(nc, c))
+				} else {
+					r[k] = And(nc, c)
+				}
+			}
+		case t.Op == "int":
+			r = map[int]*Term{int(t.IVal.Int64()): True}
+		default:
+			r = map[int]*Term{-1: True}
+		}
+		memo[t.id] = r
+		return r
+	}
+	m := walk(t)
+	var tags []int
+	for k := range m {
+		tags = append(tags, k)
+	}
+	sort.Ints(tags)
 	var out []tagCase
-	var walk func(t, cond *Term)
-	walk = func(t, cond *Term) {
-		if cond.IsFalse() {
-			return
+	for _, k := range tags {
+		if !m[k].IsFalse() {
+			out = append(out, tagCase{m[k], k})
 		}
-		if t.Op == "ite" {
-			walk(t.Args[1], And(cond, t.Args[0]))
-			walk(t.Args[2], And(cond, Not(t.Args[0])))
-			return
-		}
-		if t.Op == "int" {
-			out = append(out, tagCase{cond, int(t.IVal.Int64())})
-			return
-		}
-		out = append(out, tagCase{cond, -1})
-	}
-	walk(t, True)
-	// merge equal tags
-	m := map[int]*Term{}
-	var order []int
-	for _, c := range out {
-		if old, ok := m[c.tag]; ok {
-			m[c.tag] = Or(old, c.cond)
-		} else {
-			m[c.tag] = c.cond
-			order = append(order, c.tag)
-		}
-	}
-	out = out[:0]
-	for _, t := range order {
-		out = append(out, tagCase{m[t], t})
 	}
 	return out
 }
@@ -215,8 +225,35 @@ func (e *Engine) callUnknownFunc(fr *Frame, instr ssa.Instruction, fnval *Term, 
 }
 
 func (e *Engine) invoke(fr *Frame, instr ssa.Instruction, recv *Term, ifaceT types.Type, method *types.Func, args []*Term, resT types.Type, st *State, pc *Term, label string) (*Term, *Term) {
+	e.invokeDepth++
+	defer func() { e.invokeDepth-- }()
 	cases := e.possibleTags(IfaceTag(recv))
+	if e.invokeDepth > 8 {
+		var d []string
+		for _, c := range cases {
+			n := "?"
+			if c.tag > 0 {
+				n = e.tr.typeOfTag(c.tag).String()
+			}
+			d = append(d, n)
+		}
+		e.invokeTrace = append(e.invokeTrace, fmt.Sprintf("%d:%s%v", e.invokeDepth, method.Name(), d))
+	}
+	if e.invokeDepth == 9 && traceOn {
+		p := newPrinter()
+		tt := IfaceTag(recv)
+		p.count(tt)
+		x := p.expr(tt)
+		fmt.Fprintf(os.Stderr, "TAG at depth 9: %s\n", x)
+		for _, d := range p.defs {
+			fmt.Fprintf(os.Stderr, "   %s\n", d)
+		}
+	}
+	if e.invokeDepth > 14 {
+		panic(outsideSubset("dynamic dispatch nests deeper than 14 (cyclic writer stack?) " + strings.Join(e.invokeTrace[len(e.invokeTrace)-6:], " | ")))
+	}
 	one := func(tc tagCase, s2 *State, p2 *Term) (*Term, *Term) {
+		recv := Restrict(recv, p2)
 		if tc.tag > 0 {
 			T := e.tr.typeOfTag(tc.tag)
 			if g, ok := T.(*ghostType); ok {
@@ -254,7 +291,7 @@ func (e *Engine) invoke(fr *Frame, instr ssa.Instruction, recv *Term, ifaceT typ
 	}
 	live := cases[:0]
 	for _, c := range cases {
-		if c.tag != 0 { // nil interface: panics
+		if c.tag != 0 && !And(pc, c.cond).IsFalse() { // nil interface: panics
 			live = append(live, c)
 		}
 	}
@@ -338,6 +375,9 @@ func (e *Engine) callFn(fr *Frame, instr ssa.Instruction, fn *ssa.Function, args
 		}
 		r := m(ctx)
 		return r, ctx.pcOut
+	}
+	if c := e.contracts[name]; c != nil && c.Pure && fn != e.topFn {
+		return e.pureCall(ctx, c), ctx.pcOut
 	}
 	if c := e.contracts[name]; c != nil && !c.Inline && fn != e.topFn && !(fr != nil && fr.clause) {
 		return e.modularCall(ctx, c), ctx.pcOut
@@ -547,6 +587,7 @@ func (e *Engine) modularCall(c *CallCtx, ct *Contract) *Term {
 	// the callee may allocate
 	na := Fresh("alloc", IntS)
 	e.axiom(Ge(na, e.comp(pre, allocComp)))
+	e.noteAllocGe(na, e.comp(pre, allocComp))
 	e.setComp(c.st, allocComp, na)
 	res := e.freshOfType(c.st, c.resT, "res:"+fn.Name())
 	var resArgs []*Term
@@ -561,6 +602,47 @@ func (e *Engine) modularCall(c *CallCtx, ct *Contract) *Term {
 	}
 	if tt, ok := c.resT.(*types.Tuple); ok && tt.Len() == 0 {
 		return nil
+	}
+	return res
+}
+
+// pureCall: the callee is a pure function of scalar arguments.  Its result is
+// the application of an uninterpreted function to the arguments (so equal
+// arguments give equal results, in code and in specifications alike), and its
+// postconditions are assumed for these arguments.
+func (e *Engine) pureCall(c *CallCtx, ct *Contract) *Term {
+	e.note("pure-call:" + c.name)
+	var ss []*Sort
+	for _, a := range c.args {
+		if a.Sort.Kind == "array" || a.Sort == tupleSort {
+			panic(outsideSubset("pure function with non-scalar argument: " + c.name))
+		}
+		ss = append(ss, a.Sort)
+	}
+	rs := e.tr.sortOf(c.resT)
+	if rs == tupleSort {
+		panic(outsideSubset("pure function with several results: " + c.name))
+	}
+	res := App(DeclUF("fn:"+shortFn(c.fn), rs, ss...), c.args...)
+	if !e.pureSeen[res.id] {
+		e.pureSeen[res.id] = true
+		for _, cl := range ct.Requires {
+			if !(c.fr != nil && c.fr.clause) {
+				g := e.evalClause(c.fr, cl, c.args, nil, c.st, c.st, c.pc)
+				e.addObl(c.fr, "requires", fmt.Sprintf("%s.%s@%s", shortFn(c.fn), cl.Label, c.label), cl.Props, c.pc, g, e.posOf(c.fr, c.instr))
+			}
+		}
+		e.pureDepth++
+		if e.pureDepth < 3 {
+			for _, cl := range ct.Ensures {
+				g := e.evalClause(c.fr, cl, c.args, []*Term{res}, c.st, c.st, True)
+				if res.hasBound {
+					continue
+				}
+				e.axiom(g)
+			}
+		}
+		e.pureDepth--
 	}
 	return res
 }
